@@ -6,7 +6,7 @@
    Go bytes, unsigned prefix included, (4) decode the Go bytes to exactly that
    record.  CBlock: header fields, transaction lengths and the block bytes. *)
 From Coq Require Import NArith List Bool.
-From ELA Require Import lib.GoSem lib.Bytes model.C02_Fmt model.C02_Descr model.C04_Codec.
+From ELA Require Import lib.GoSem lib.Bytes model.C02_Fmt model.C02_Descr model.C04_Codec model.C04_Payloads model.C04_Proposal.
 Import ListNotations.
 Local Open Scope N_scope.
 
@@ -38,7 +38,10 @@ Inductive case :=
 (* a transaction generated identically on both sides with one field / list of n
    elements (n at the varint width boundaries); Go reports the length and a
    checksum of Serialize and whether the bytes decoded back to the same value *)
-| CGen (id kind n glen gsum : N) (gok : bool).
+| CGen (id kind n glen gsum : N) (gok : bool)
+(* a CRCProposal payload: the fields Go reports for the decoded object (by
+   proposal kind) and the bytes of its Serialize under payload version pv *)
+| CProp (id pv : N) (p : proposal) (pbytes : bytes).
 
 From ELA Require Import lib.VarInt.
 
@@ -116,6 +119,14 @@ Definition check2 (cs : case) : option N :=
     let ok := gok && wf_tx t && (N.of_nat (length bs) =? glen) && (bsum bs =? gsum) &&
               match decode_tx bs with
               | Ok (t', []) => value_eqb (tx_v t') (tx_v t)
+              | _ => false
+              end in
+    if ok then None else Some id
+  | CProp id pv p pb =>
+    let ok := kind_ok p && wt_payload 37 pv (proposal_v p) &&
+              bytes_eqb (enc_payload 37 pv (proposal_v p)) pb &&
+              match dec_payload 37 pv proposal_of pb with
+              | Ok (p', []) => value_eqb (proposal_v p') (proposal_v p)
               | _ => false
               end in
     if ok then None else Some id
